@@ -291,6 +291,20 @@ func (e *env) rebuildJail() error {
 		return infraf("snapshot: %v", err)
 	}
 	e.snap = s
+	// the exported directory is a new object now: a child whose Root is
+	// relative to its working directory still sits in the old one
+	if e.ch != nil && e.ch.alive() {
+		_ = e.ch.stdin.Close()
+		select {
+		case <-e.ch.dead:
+		case <-time.After(5 * time.Second):
+			_ = e.ch.cmd.Process.Kill()
+			<-e.ch.dead
+		}
+		if err := e.startChild(); err != nil {
+			return err
+		}
+	}
 	return nil
 }
 
@@ -571,9 +585,31 @@ func (e *env) findInode(ino uint64) bool {
 	return found
 }
 
+// rootSpellingsForServer: how the child's Ufs.Root names the exported
+// directory (rootInJail) and the working directory it is relative to. (An
+// empty Root is not among them: Ufs takes it for "/".)
+var rootSpellingsForServer = []struct{ root, cwd string }{
+	{rootInJail, ""},
+	{".", rootInJail},
+	{exportName, parentInJail},
+	{rootInJail + "/", ""},
+	{upName + "/" + exportName, "/"},
+	{"./", rootInJail},
+	{parentInJail + "/./" + exportName, ""},
+	{"../" + exportName, rootInJail},
+	{"./" + exportName + "/.", parentInJail},
+}
+
 func (e *env) startChild() error {
 	_ = os.Remove(e.sock)
-	args := []string{"-ufs", "-root", rootInJail, "-msize", "8192", "-sock", e.sock, "-chroot", e.jail}
+	// the server is told its root in one of several spellings (one per shard
+	// process): absolute, relative to its working directory, "." and "", unclean
+	sp := rootSpellingsForServer[hx.Shard%len(rootSpellingsForServer)]
+	hx.Label("server root spelled " + fmt.Sprintf("%q in %q", sp.root, sp.cwd))
+	args := []string{"-ufs", "-root", sp.root, "-msize", "8192", "-sock", e.sock, "-chroot", e.jail}
+	if sp.cwd != "" {
+		args = append(args, "-cwd", sp.cwd)
+	}
 	if e.dotu {
 		args = append(args, "-dotu")
 	}
